@@ -38,6 +38,10 @@ type Oblig struct {
 	Src    string // clause source or description
 	Props  []string
 	Expect string // "unsat" (default: goal valid) or "sat" (cover)
+	// the unsplit form of a range-split obligation (tried when the split part is not decided)
+	AltHyps []*Term
+	AltGoal *Term
+	altSMT  string
 	// filled by solver
 	SMT      string
 	Result   string
@@ -215,6 +219,8 @@ type Engine struct {
 	lemmasUsed    map[string]bool
 	leafClass     []leafClass
 	curProp       string
+	l             *Loaded
+	ifaceUsed     map[string]bool
 	returnsSeen   int
 	regexSeq      int
 	tier          string
@@ -255,14 +261,25 @@ func (e *Engine) emit(s *State, kind, site string, goal *Term, pos token.Pos, sr
 	if site != "" {
 		name += "@" + site
 	}
-	ob := &Oblig{Name: name, Func: funcKey(e.curFn), Mode: e.mode, Kind: kind, Hyps: append([]*Term(nil), s.pc...), Goal: goal, Pos: e.posOf(pos), Src: src, Expect: "unsat"}
-	if e.curC != nil {
-		ob.Props = e.curC.Props
+	parts, at := splitRangeGoal(goal)
+	for k, g := range parts {
+		hyps := append([]*Term(nil), s.pc...)
+		if k == 1 && at != nil {
+			// the new instance of a range-extended invariant: universal hypotheses instantiated at the new index
+			hyps = append(hyps, instancesAt(s.pc, at)...)
+		}
+		ob := &Oblig{Name: name, Func: funcKey(e.curFn), Mode: e.mode, Kind: kind, Hyps: hyps, Goal: g, Pos: e.posOf(pos), Src: src, Expect: "unsat"}
+		if len(parts) > 1 {
+			ob.AltHyps, ob.AltGoal = append([]*Term(nil), s.pc...), goal
+		}
+		if e.curC != nil {
+			ob.Props = e.curC.Props
+		}
+		if e.curArgs != nil && len(s.stack) > 0 {
+			ob.run = &runInfo{fn: e.curFn, mode: e.mode, args: e.curArgs, results: s.results, hints: append([]hintSite(nil), s.hints...)}
+		}
+		e.obligs = append(e.obligs, ob)
 	}
-	if e.curArgs != nil && len(s.stack) > 0 {
-		ob.run = &runInfo{fn: e.curFn, mode: e.mode, args: e.curArgs, results: s.results, hints: append([]hintSite(nil), s.hints...)}
-	}
-	e.obligs = append(e.obligs, ob)
 	s.assumeGoal(goal)
 }
 
@@ -380,24 +397,35 @@ func getLoops(fn *ssa.Function) *loopInfo {
 		})
 	}
 	if len(stmts) == len(hs) {
-		// assign each header to the innermost statement containing its min position... simple: nesting-aware match
+		// each loop belongs to the innermost for/range statement that contains the positions of all its
+		// non-phi instructions (an enclosing loop contains them too, a nested one does not); ordinals follow
+		// the order of the statements in the source
+		assign := make([]int, len(hs))
 		used := map[int]bool{}
 		ok := true
-		assign := make([]int, len(hs))
 		for i, h := range hs {
-			best := -1
+			best, bestExt := -1, token.Pos(0)
 			for k, st := range stmts {
-				if used[k] {
-					continue
-				}
-				if st.Pos() <= h.pos && h.pos <= st.End() {
-					// choose the outermost unused statement containing pos whose body size ordering matches:
-					if best == -1 {
-						best = k
+				all, any := true, false
+				for blk := range li.body[h.h] {
+					for _, in := range blk.Instrs {
+						if _, isPhi := in.(*ssa.Phi); isPhi || in.Pos() == token.NoPos {
+							continue
+						}
+						any = true
+						if in.Pos() < st.Pos() || in.Pos() > st.End() {
+							all = false
+						}
 					}
 				}
+				if !all || !any {
+					continue
+				}
+				if ext := st.End() - st.Pos(); best == -1 || ext < bestExt {
+					best, bestExt = k, ext
+				}
 			}
-			if best == -1 {
+			if best == -1 || used[best] {
 				ok = false
 				break
 			}
@@ -405,7 +433,6 @@ func getLoops(fn *ssa.Function) *loopInfo {
 			assign[i] = best
 		}
 		if ok {
-			sort.Slice(hs, func(i, j int) bool { return false })
 			tmp := make([]hp, len(hs))
 			for i := range hs {
 				tmp[assign[i]] = hs[i]
@@ -1055,4 +1082,59 @@ type altResult struct {
 	cond  *Term
 	val   Value
 	facts []*Term // assumed on the main path only
+}
+
+// splitRangeGoal: a goal  forall c in [lo, U+1): B(c)  (the shape of a quantified loop invariant after one
+// more iteration) is split into the old range  forall c in [lo, U): B(c)  and the new instance
+// lo <= U => B(U); the conjunction of the two is the original goal.
+func splitRangeGoal(goal *Term) ([]*Term, *Term) {
+	if goal.Op != "forall" || strings.Contains(goal.Name, ",") {
+		return []*Term{goal}, nil
+	}
+	body := goal.Args[0]
+	if body.Op != "=>" || body.Args[0].Op != "and" || len(body.Args[0].Args) != 2 {
+		return []*Term{goal}, nil
+	}
+	c := Bound(goal.Name, SInt)
+	lo, hi := body.Args[0].Args[0], body.Args[0].Args[1]
+	if lo.Op != "<=" || lo.Args[1] != c || hi.Op != "<" || hi.Args[0] != c {
+		return []*Term{goal}, nil
+	}
+	up := hi.Args[1]
+	var u *Term
+	if up.Op == "+" && len(up.Args) == 2 {
+		if up.Args[1].IsConst() && up.Args[1].Val.IsInt64() && up.Args[1].Val.Int64() == 1 {
+			u = up.Args[0]
+		} else if up.Args[0].IsConst() && up.Args[0].Val.IsInt64() && up.Args[0].Val.Int64() == 1 {
+			u = up.Args[1]
+		}
+	}
+	if u == nil || containsTerm(u, c) {
+		return []*Term{goal}, nil
+	}
+	g1 := Forall([]*Term{c}, Implies(And(lo, Lt(c, u)), body.Args[1]))
+	g2 := Implies(Le(lo.Args[0], u), Subst(body.Args[1], map[*Term]*Term{c: u}))
+	return []*Term{g1, g2}, u
+}
+
+// instancesAt: the single-variable universal facts of the path condition instantiated at one term.
+func instancesAt(pc []*Term, at *Term) []*Term {
+	var out []*Term
+	var visit func(h *Term)
+	visit = func(h *Term) {
+		switch h.Op {
+		case "and":
+			for _, a := range h.Args {
+				visit(a)
+			}
+		case "forall":
+			if !strings.Contains(h.Name, ",") && len(out) < 200 {
+				out = append(out, Subst(h.Args[0], map[*Term]*Term{Bound(h.Name, SInt): at}))
+			}
+		}
+	}
+	for _, h := range pc {
+		visit(h)
+	}
+	return out
 }
